@@ -47,8 +47,13 @@ FailStep(cause) ==
     [] cause \in {"corrupt_first_chunk", "truncated_first_chunk"} -> "first_chunk"
     [] cause \in {"corrupt_later_chunk", "truncated_later_chunk", "appended_data"} -> "later_chunks"
     [] OTHER -> "never"
+\* the step that performs the first write to the output
+FirstWrite(cmd) == CASE cmd \in {"encrypt", "pass_encrypt"} -> "write_header"
+                     [] cmd \in {"decrypt", "pass_decrypt"} -> "first_chunk"
+                     [] OTHER -> "write_block"
 FailsAt(c, step) ==
   \/ FailStep(c.cause) = step
+  \/ c.cause \in OutputCauses /\ step = FirstWrite(c.cmd)
   \/ c.cmd = "pass_decrypt" /\ c.cause \in {"wrong_password", "corrupt_header"} /\ step = "first_chunk"
 
 VARIABLES cfg, pc, cell, exit, errline, named
@@ -95,12 +100,13 @@ Spec == Init /\ [][Step]_vars /\ WF_vars(Step)
 
 Finished == exit # -1
 Obs == [exit |-> exit, errline |-> errline, named |-> named,
-        out |-> IF cfg.outp = "stdout" /\ cfg.cause # "none" /\ cfg.cause \notin LateCauses(cfg.cmd) THEN "none"
+        out |-> IF cfg.cause \in {"output_device_full", "stdout_full"} THEN "n/a"
+                ELSE IF cfg.outp = "stdout" /\ cfg.cause # "none" /\ cfg.cause \notin LateCauses(cfg.cmd) THEN "none"
                 ELSE IF cfg.outp = "stdout" THEN (IF cfg.cause = "none" THEN "full" ELSE "prefix1")
                 ELSE IF cell = "old" THEN "untouched" ELSE cell]
 
 \* C13
-NoClobber == (Finished /\ cfg.cause \in EarlyCauses(cfg.cmd) /\ cfg.outp = "file") =>
+NoClobber == (Finished /\ cfg.cause \in (EarlyCauses(cfg.cmd) \cup {"output_dir_missing"}) /\ cfg.outp = "file") =>
                 cell = (IF cfg.prior = "present" THEN "old" ELSE "absent")
 PrefixOnLaterFailure == (Finished /\ cfg.cause \in LateCauses(cfg.cmd)) => (exit = 1 /\ (cfg.outp = "file" => cell = "prefix1"))
 \* C12
